@@ -90,8 +90,8 @@ func bsc(b bool) Sc {
 	}
 	return Sc{w: 0}
 }
-func isc(c int64) Sc   { return Sc{w: 64, c: uint64(c)} }
-func u8(c uint64) Sc   { return Sc{w: 8, c: c & 0xff} }
+func isc(c int64) Sc     { return Sc{w: 64, c: uint64(c)} }
+func u8(c uint64) Sc     { return Sc{w: 8, c: c & 0xff} }
 func (s Sc) isSym() bool { return s.t != nil }
 
 func (e *Engine) term(s Sc) *Term {
